@@ -540,6 +540,7 @@ def _limits(ctl):
 
 def _workload(run, data, spec, ctl, fetch_all=False):
     from pyoda_time.time_zones._tzdb_date_time_zone_source import TzdbDateTimeZoneSource
+    from pyoda_time import DateTimeZone
     from pyoda_time.time_zones._date_time_zone_cache import DateTimeZoneCache
 
     stream = simio.SimStream(data)
@@ -563,11 +564,18 @@ def _workload(run, data, spec, ctl, fetch_all=False):
     for zid in chosen:
         o1, z = run.op(f"source.for_id({zid!r})", "fetch", lambda: source.for_id(zid), ALLOWED_ALWAYS)
         n_ok += o1
-        if o1 and getattr(z, "id", None) != zid:
+        if o1 and not isinstance(z, DateTimeZone):
+            # "works" means a zone comes back: for_id is declared to return a DateTimeZone for every id the source lists
+            if run.violation is None:
+                run.violation = (f"fetch returns {type(z).__name__} instead of a zone from source.for_id", f"source.for_id({zid!r}) returned {z!r} for an id the source lists")  # fmt: skip
+        elif o1 and getattr(z, "id", None) != zid:
             info["wrong_id"] = zid
         if okc:
-            run.op(f"cache[{zid!r}]", "fetch", lambda: cache[zid], ALLOWED_PROVIDER)
-            run.op(f"cache.get_zone_or_none({zid!r})", "fetch", lambda: cache.get_zone_or_none(zid), ALLOWED_PROVIDER)
+            o2, z2 = run.op(f"cache[{zid!r}]", "fetch", lambda: cache[zid], ALLOWED_PROVIDER)
+            o3, z3 = run.op(f"cache.get_zone_or_none({zid!r})", "fetch", lambda: cache.get_zone_or_none(zid), ALLOWED_PROVIDER)
+            if (o2 and not isinstance(z2, DateTimeZone)) or (o3 and not isinstance(z3, DateTimeZone)):
+                if run.violation is None:
+                    run.violation = ("fetch returns no zone from the provider", f"provider lookup of listed id {zid!r} returned {z2!r} / {z3!r}")  # fmt: skip
     info["fetch_ok"] = n_ok
     info["ids"] = ids if fetch_all else None
     return info
